@@ -360,6 +360,30 @@ class DWorld:
             self.lib_error(owner, "query_raised", f"{name}{args} raised {short_exc(e)}", query=name, exc=type(e).__name__)
             raise Foreign(owner, f"{name} raised (known)")
 
+    def solve_rest(self, rule, chooser):
+        """The user hands the dispatcher to a DispatchingRuleSolver, which finishes the episode
+        (`solver.solve(instance, dispatcher)`); the model follows through a recording observer."""
+        from job_shop_lib.dispatching.rules import DispatchingRuleSolver
+
+        sink = []
+        rec = rec_classes()["multi"](self.disp, tag="solve_rest", sink=sink)
+        try:
+            solver = DispatchingRuleSolver(dispatching_rule=rule, machine_chooser=chooser, ready_operations_filter=self.disp.ready_operations_filter)
+            solver.solve(self.inst, self.disp)
+        except Exception as e:  # noqa: BLE001
+            own = owner_of_exception(e, "C04")
+            raise Foreign(own, f"solver.solve(instance, dispatcher) raised {short_exc(e)}")
+        finally:
+            self.disp.unsubscribe(rec)
+        for (_, _, op_id, mm, start, _) in sink:
+            j, p = self.model.ops[op_id]
+            if self.model.nxt[j] != p or mm not in self.model.machines(j, p):
+                raise Foreign("C04", "the rule solver dispatched an operation that is not ready")
+            self.model.dispatch(j, p, mm)
+            self.accepted.append((op_id, mm))
+        self.ctx.sim_time = max(self.ctx.sim_time, self.model.makespan())
+        return len(sink)
+
     def fork(self):
         """The user deep-copies the dispatcher (with everything subscribed to it) mid-history - a rollout /
         look-ahead / checkpoint - and carries on with the copy."""
@@ -528,7 +552,7 @@ class DWorld:
 
 
 def gen_dispatch_ops(rng, n_ops, *, p_query=0.0, p_invalid=0.0, p_reset=0.0, extra=None, src_av=0.5,
-                     episodes=1, stop_early=0.1, queries=None, p_fork=0.0):
+                     episodes=1, stop_early=0.1, queries=None, p_fork=0.0, p_solve_rest=0.0):
     """Generic op-list generator for dispatcher histories.  `extra`:
     list of (probability, factory(rng)->op)."""
     ops = []
@@ -557,6 +581,11 @@ def gen_dispatch_ops(rng, n_ops, *, p_query=0.0, p_invalid=0.0, p_reset=0.0, ext
                 ops.append(["fork"])
                 continue
             r -= p_fork
+            if r < p_solve_rest and k > 0:
+                ops.append(["solve_rest", rng.choice(["shortest_processing_time", "most_work_remaining", "first_come_first_served", "most_operations_remaining"]), rng.choice(["first", "random"])])
+                k = target
+                continue
+            r -= p_solve_rest
             done = False
             for pe, fac in (extra or []):
                 if r < pe:
@@ -695,6 +724,11 @@ def run_ops(w, ops, hooks):
             hooks.on_reset(w)
             ctx.count("reset")
             ctx.event(i, kind, h64(w.abstract_state()))
+        elif kind == "solve_rest":
+            n_new = w.solve_rest(op[1], op[2])
+            ctx.count("solve_rest")
+            ctx.count("dispatch", n_new)
+            ctx.event(i, kind, op[1], n_new, h64(w.abstract_state()))
         elif kind == "fork":
             w.fork()
             hooks.on_fork(w)
